@@ -64,6 +64,25 @@ theorem onCycle_iff {adj : Adj} {v : Nat} : OnCycle adj v ↔ ∃ p, Reach adj v
     · subst h; exact ⟨v, hp, Reach.refl _⟩
     · exact ⟨b, hb, Reach.tail hbp hp⟩
 
+/-! ### counting -/
+
+theorem countP_lt_of_imp {S : List Nat} {P Q : Nat → Bool} (himp : ∀ y ∈ S, P y = true → Q y = true)
+    (hz : ∃ z ∈ S, Q z = true ∧ P z = false) : S.countP P < S.countP Q := by
+  induction S with
+  | nil => obtain ⟨z, hz, _⟩ := hz; cases hz
+  | cons a t ih =>
+    rw [List.countP_cons, List.countP_cons]
+    obtain ⟨z, hzm, hq, hp⟩ := hz
+    have himp' : ∀ y ∈ t, P y = true → Q y = true := fun y hy => himp y (List.mem_cons_of_mem _ hy)
+    have hle : t.countP P ≤ t.countP Q := List.countP_mono_left himp'
+    rcases List.mem_cons.1 hzm with rfl | hzt
+    · simp [hq, hp]; omega
+    · have := ih himp' ⟨z, hzt, hq, hp⟩
+      have ha := himp a List.mem_cons_self
+      by_cases hpa : P a = true
+      · simp [hpa, ha hpa]; omega
+      · simp [hpa]; split <;> omega
+
 /-! ### `dedup` -/
 
 theorem mem_dedup {l : List Nat} {x : Nat} : x ∈ dedup l ↔ x ∈ l := by
